@@ -5,5 +5,7 @@ CONSTANTS
  MaxNow = 4
  MaxGen = 1
  TtlSets <- TS_full
+ Evicts = FALSE
+ MaxObj = 0
 INVARIANTS EntryFresh Emit
 CHECK_DEADLOCK FALSE
